@@ -635,6 +635,7 @@ func checkDecoderPanicsAndLoops(p *core.Program, r *core.Report) {
 			}
 			nIdx++
 			why := ""
+			var bounds []ssa.Value // the announced counts the index runs up to
 			if dependsOnWire(idx) {
 				why = "the index is computed from a value read from the input"
 			} else if phi, ok := core.Strip(idx).(*ssa.Phi); ok {
@@ -647,6 +648,7 @@ func checkDecoderPanicsAndLoops(p *core.Program, r *core.Report) {
 							for _, side := range []ssa.Value{b.X, b.Y} {
 								if w, _ := isWireValue(core.Strip(side)); w || dependsOnWire(side) {
 									why = "the index counts up to " + valStr(side) + ", a count read from the input"
+									bounds = append(bounds, core.Strip(side))
 								}
 							}
 						}
@@ -666,7 +668,13 @@ func checkDecoderPanicsAndLoops(p *core.Program, r *core.Report) {
 					continue
 				}
 				for _, pair := range [][2]ssa.Value{{cb.X, cb.Y}, {cb.Y, cb.X}} {
-					if core.Strip(pair[0]) != core.Strip(idx) {
+					isBound := false
+					for _, bd := range bounds {
+						if core.Strip(pair[0]) == bd && c.If != nil && c.If.Block() != in.Block() && !core.InLoop(c.If.Block()) {
+							isBound = true // the announced count itself was compared before the loop
+						}
+					}
+					if core.Strip(pair[0]) != core.Strip(idx) && !isBound {
 						continue
 					}
 					if _, isC := core.ConstInt(pair[1]); isC {
